@@ -357,7 +357,7 @@ where
         }
         Ok(None) => {}
         Err(e) => {
-            if src.seen_doc_end() {
+            if src.seen_doc_end() && e.is_syntax_error() {
                 // Trailing garbage after a proper document end marker is ignored.
             } else {
                 return Err(maybe_with_snippet(e, input, with_snippet, crop_radius));
@@ -469,7 +469,7 @@ fn from_str_with_options_and_path_recorder<T: DeserializeOwned>(
         }
         Ok(None) => {}
         Err(e) => {
-            if src.seen_doc_end() {
+            if src.seen_doc_end() && e.is_syntax_error() {
                 // ignore trailing garbage
             } else {
                 return Err(maybe_with_snippet(e, input, with_snippet, crop_radius));
@@ -764,7 +764,7 @@ where
         }
         Ok(None) => {}
         Err(e) => {
-            if src.seen_doc_end() {
+            if src.seen_doc_end() && e.is_syntax_error() {
                 // Trailing garbage after a proper document end marker is ignored.
             } else {
                 return Err(e);
@@ -1155,7 +1155,7 @@ where
         }
         Ok(None) => {}
         Err(e) => {
-            if src.seen_doc_end() {
+            if src.seen_doc_end() && e.is_syntax_error() {
                 // Trailing garbage after a proper document end marker is ignored.
             } else {
                 return Err(e);
@@ -1761,7 +1761,7 @@ pub fn from_reader_with_options<'a, R: std::io::Read + 'a, T: DeserializeOwned>(
         }
         Ok(None) => {}
         Err(e) => {
-            if src.seen_doc_end() {
+            if src.seen_doc_end() && e.is_syntax_error() {
                 // Trailing garbage after a proper document end marker is ignored.
             } else {
                 return Err(attach_snippet(e));
